@@ -38,7 +38,8 @@ Fixpoint ubf_history (f : ubf) (ops : list (list Z)) : args :=
 (* extended history on one live object (every public setter, same-value re-assignment):
    [0; v] value = v | 1 :: octets value = bytes | 2 :: octets value = bytearray (the caller
    overwrites its buffer afterwards) | [3; w] byte_len = w | [4] value = value |
-   [5] value = as_bytes.  After EVERY op, accepted or refused: status line, the three view
+   [5] value = as_bytes | 6 :: octets value = the SAME bytearray object the caller assigned
+   before and has edited in place since (octets = its present content).  After EVERY op, accepted or refused: status line, the three view
    lines of the object as it is now, and the line of equality / hash / rebuild verdicts the
    adapter evaluates on the live object (all 1 in the model: they hold by definition of
    ubf_eq / ubf_hash_key). *)
@@ -52,6 +53,7 @@ Definition ubf_hop_of (o : list Z) : option ubf_hop :=
   | 3 :: w :: _ => Some (HSetLen w)
   | 4 :: _ => Some HSameInt
   | 5 :: _ => Some HSameBytes
+  | 6 :: b => Some (HSetBytes b)
   | _ => None
   end.
 Fixpoint ubf_history_any (f : ubf) (ops : list (list Z)) : args :=
